@@ -1,8 +1,423 @@
-//! (engine stub)
-#[allow(unused_imports)]
-use crate::util::*;
+//! XPath engine (C05 C06 C07 C08 C09 C19): sub-commands `xp-*`.
+//!
+//!   xp-replay   --in REPLAY --trace OUT --stats OUT [--sample N]
+//!               REPLAY = DOC / REPLAY lines printed by TLC (MC_XPath / MC_Scalar); every spelling of
+//!               every case is evaluated with `xml_xpath::query` on the parsed document text.  Cases whose
+//!               observations all equal the expectation are counted (fast path for "ok", every N-th is
+//!               still written to the trace); all others are written to the trace for Trace_XPath.tla.
+//!   xp-record   --seed S --n N --out TRACE        seeded random documents and expressions (xp_gen.rs)
+//!   xp-session  ...                               C19 (xp_session.rs)
+//!   xp-total    ...  / xp-worker                  C06 (xp_total.rs)
+//!
+//! The harness never judges: it reports what the implementation answered.
 
-pub fn main(sub: &str, _args: &[String]) -> i32 {
-    eprintln!("unknown subcommand {}", sub);
-    2
+#[path = "xp_gen.rs"]
+mod gen;
+#[path = "xp_session.rs"]
+mod session;
+#[path = "xp_total.rs"]
+mod total;
+
+use crate::util::*;
+use serde_json::{json, Value as J};
+use std::collections::HashMap;
+use std::io::Write;
+use xml_dom::{AsExpandedName, AsNode, AsStringValue, Attr, Node, NodeType, XmlDocument, XmlNode};
+use xml_xpath::eval::model::{Context, Value};
+
+pub fn main(sub: &str, args: &[String]) -> i32 {
+    match sub {
+        "xp-replay" => replay(args),
+        "xp-record" => gen::record(args),
+        "xp-session" => session::main(args),
+        "xp-total" => total::main(args),
+        "xp-worker" => total::worker(args),
+        "xp-eval" => eval_cli(args),
+        _ => {
+            eprintln!("unknown subcommand {}", sub);
+            2
+        }
+    }
+}
+
+// ------------------------------------------------------------------------------------------------
+// documents
+
+pub struct Doc {
+    pub dom: XmlDocument,
+    /// XmlNode::id() -> 1-based document-order index of the specification's tree
+    pub ids: HashMap<usize, i64>,
+    /// why the parsed document is not the tree the specification serialized (None = it is)
+    pub mismatch: Option<String>,
+    pub text: String,
+}
+
+pub fn parse_merged(text: &str) -> Result<XmlDocument, String> {
+    match guarded(|| {
+        XmlDocument::from_raw_with_context(text, xml_dom::Context::from_text_expanded(true))
+            .map(|(rest, d)| (rest.to_string(), d))
+            .map_err(|e| e.to_string())
+    }) {
+        Ok(Ok((rest, d))) => {
+            if rest.is_empty() {
+                Ok(d)
+            } else {
+                Err(format!("rest: {}", rest))
+            }
+        }
+        Ok(Err(e)) => Err(e),
+        Err(p) => Err(format!("panic: {}", p)),
+    }
+}
+
+fn cps(v: &J) -> String {
+    cps_to_string(v)
+}
+
+fn kind_of(n: &XmlNode) -> &'static str {
+    match n.node_type() {
+        NodeType::Element => "elem",
+        NodeType::Text | NodeType::CData | NodeType::EntityReference => "text",
+        NodeType::Comment => "comment",
+        NodeType::PI => "pi",
+        NodeType::Document => "root",
+        NodeType::DocumentType => "doctype",
+        _ => "other",
+    }
+}
+
+fn qname_of(n: &XmlNode) -> (String, String) {
+    match guarded(|| n.as_expanded_name()) {
+        Ok(Ok(Some((local, prefix, _)))) => {
+            let p = match prefix {
+                Some(p) if p != "xmlns" => p,
+                _ => String::new(),
+            };
+            (p, local)
+        }
+        _ => (String::new(), String::new()),
+    }
+}
+
+/// Walk the parsed document and the specification's tree in parallel (public API only) and record
+/// XmlNode::id() -> tree index.  Any structural difference is reported, not judged.
+fn bind(dom: &XmlDocument, tree: &J) -> (HashMap<usize, i64>, Option<String>) {
+    let nodes = tree["nodes"].as_array().cloned().unwrap_or_default();
+    let n = nodes.len();
+    let mut kids: Vec<Vec<usize>> = vec![vec![]; n + 1];
+    let mut attrs: Vec<Vec<usize>> = vec![vec![]; n + 1];
+    for (i, nd) in nodes.iter().enumerate() {
+        let idx = i + 1;
+        let p = nd["p"].as_u64().unwrap_or(0) as usize;
+        match nd["k"].as_str().unwrap_or("") {
+            "attr" => attrs[p].push(idx),
+            "ns" => {}
+            "root" => {}
+            _ => kids[p].push(idx),
+        }
+    }
+    let mut ids = HashMap::new();
+    let mut mismatch = None;
+    fn walk(
+        node: &XmlNode,
+        idx: usize,
+        nodes: &[J],
+        kids: &[Vec<usize>],
+        attrs: &[Vec<usize>],
+        ids: &mut HashMap<usize, i64>,
+        mismatch: &mut Option<String>,
+    ) {
+        let spec = &nodes[idx - 1];
+        let k = spec["k"].as_str().unwrap_or("");
+        let dk = kind_of(node);
+        if k != dk {
+            mismatch.get_or_insert(format!("node {}: kind {} vs {}", idx, k, dk));
+            return;
+        }
+        ids.insert(node.id(), idx as i64);
+        match k {
+            "elem" => {
+                let (p, l) = qname_of(node);
+                if p != cps(&spec["pre"]) || l != cps(&spec["loc"]) {
+                    mismatch.get_or_insert(format!("node {}: name {}:{}", idx, p, l));
+                }
+                let dattrs: Vec<XmlNode> = node
+                    .attributes()
+                    .map(|m| m.iter().map(|a| a.as_node()).collect())
+                    .unwrap_or_default();
+                if dattrs.len() != attrs[idx].len() {
+                    mismatch.get_or_insert(format!("node {}: {} attributes", idx, dattrs.len()));
+                }
+                for &j in &attrs[idx] {
+                    let want = (cps(&nodes[j - 1]["pre"]), cps(&nodes[j - 1]["loc"]));
+                    match dattrs.iter().find(|a| qname_of(a) == want) {
+                        Some(a) => {
+                            ids.insert(a.id(), j as i64);
+                            let v = a.as_string_value().unwrap_or_default();
+                            if v != cps(&nodes[j - 1]["v"]) {
+                                mismatch.get_or_insert(format!("attr {}: value {:?}", j, v));
+                            }
+                        }
+                        None => {
+                            mismatch.get_or_insert(format!("attr {} missing", j));
+                        }
+                    }
+                }
+            }
+            "text" | "comment" | "pi" => {
+                let v = node.as_string_value().unwrap_or_default();
+                if v != cps(&spec["v"]) {
+                    mismatch.get_or_insert(format!("node {}: data {:?}", idx, v));
+                }
+                if k == "pi" && node.node_name() != cps(&spec["loc"]) {
+                    mismatch.get_or_insert(format!("node {}: target", idx));
+                }
+            }
+            _ => {}
+        }
+        if k == "root" || k == "elem" {
+            let dkids: Vec<XmlNode> = node
+                .child_nodes()
+                .iter()
+                .filter(|c| c.node_type() != NodeType::DocumentType)
+                .collect();
+            if dkids.len() != kids[idx].len() {
+                mismatch.get_or_insert(format!("node {}: {} children", idx, dkids.len()));
+            }
+            for (c, &j) in dkids.iter().zip(kids[idx].iter()) {
+                walk(c, j, nodes, kids, attrs, ids, mismatch);
+            }
+        }
+    }
+    if n == 0 {
+        return (ids, Some("empty tree".into()));
+    }
+    let r = guarded(|| {
+        let mut ids2 = HashMap::new();
+        let mut mm = None;
+        walk(&dom.as_node(), 1, &nodes, &kids, &attrs, &mut ids2, &mut mm);
+        (ids2, mm)
+    });
+    match r {
+        Ok((i, m)) => {
+            ids = i;
+            mismatch = m;
+        }
+        Err(p) => mismatch = Some(format!("panic while walking: {}", p)),
+    }
+    (ids, mismatch)
+}
+
+pub fn load_doc(text: &str, tree: &J) -> Result<Doc, String> {
+    let dom = parse_merged(text)?;
+    let (ids, mismatch) = bind(&dom, tree);
+    Ok(Doc {
+        dom,
+        ids,
+        mismatch,
+        text: text.to_string(),
+    })
+}
+
+// ------------------------------------------------------------------------------------------------
+// values
+
+pub fn num_json(x: f64) -> J {
+    if x.is_nan() {
+        json!({"cls": "nan", "v": 0})
+    } else if x == f64::INFINITY {
+        json!({"cls": "pinf", "v": 0})
+    } else if x == f64::NEG_INFINITY {
+        json!({"cls": "ninf", "v": 0})
+    } else if x == 0.0 {
+        if x.is_sign_negative() {
+            json!({"cls": "nzero", "v": 0})
+        } else {
+            json!({"cls": "fin", "v": 0})
+        }
+    } else {
+        let y = x * 1024.0;
+        if y.fract() == 0.0 && y.abs() < 1073741824.0 {
+            json!({"cls": "fin", "v": y as i64})
+        } else {
+            json!({"cls": "other", "v": 0, "dec": format!("{}", x)})
+        }
+    }
+}
+
+pub fn value_json(doc: &Doc, v: &Value) -> J {
+    match v {
+        Value::Boolean(b) => json!({"t": "bool", "v": b}),
+        Value::Number(x) => json!({"t": "num", "n": num_json(*x)}),
+        Value::Text(s) => json!({"t": "str", "v": string_to_cps(s)}),
+        Value::Node(ns) => {
+            let idx: Vec<i64> = ns
+                .iter()
+                .map(|n| match n {
+                    XmlNode::Namespace(_) => -1,
+                    _ => *doc.ids.get(&n.id()).unwrap_or(&0),
+                })
+                .collect();
+            json!({"t": "nodes", "v": idx})
+        }
+    }
+}
+
+/// Evaluate one expression with a fresh context; a panic is data.
+pub fn eval_fresh(doc: &Doc, expr: &str, binds: &J) -> J {
+    let r = guarded(|| {
+        let mut ctx = Context::default();
+        if let Some(a) = binds.as_array() {
+            for b in a {
+                let p = cps(&b[0]);
+                let u = cps(&b[1]);
+                ctx.add_ns(Some(p.as_str()), u.as_str());
+            }
+        }
+        match xml_xpath::query(doc.dom.clone(), expr, &mut ctx) {
+            Ok(v) => value_json(doc, &v),
+            Err(e) => json!({"t": "err", "msg": e.to_string()}),
+        }
+    });
+    match r {
+        Ok(j) => j,
+        Err(p) => json!({"t": "panic", "msg": p}),
+    }
+}
+
+fn same_value(obs: &J, exp: &J) -> bool {
+    let t = obs["t"].as_str().unwrap_or("");
+    if t != exp["t"].as_str().unwrap_or("-") {
+        return false;
+    }
+    match t {
+        "err" => true,
+        "num" => obs["n"]["cls"] == exp["n"]["cls"] && obs["n"]["v"] == exp["n"]["v"] && exp["n"]["cls"] != "unk",
+        _ => obs["v"] == exp["v"],
+    }
+}
+
+// ------------------------------------------------------------------------------------------------
+// xp-replay
+
+fn replay(args: &[String]) -> i32 {
+    let inp = arg_value(args, "--in").unwrap_or("-");
+    let trace = arg_value(args, "--trace").unwrap_or("-");
+    let stats_path = arg_value(args, "--stats");
+    let sample: u64 = arg_value(args, "--sample").and_then(|s| s.parse().ok()).unwrap_or(50);
+    let mut w = open_out(trace);
+    let mut docs: HashMap<i64, (Doc, J)> = HashMap::new();
+    let mut cases = 0u64;
+    let mut evals = 0u64;
+    let mut fast_ok = 0u64;
+    let mut traced = 0u64;
+    let mut nontrivial = 0u64;
+    let mut samples: Vec<J> = vec![];
+    let mut fams: HashMap<String, u64> = HashMap::new();
+    let mut bad_docs = 0u64;
+    for_each_case(inp, |case| {
+        match case["k"].as_str().unwrap_or("") {
+            "doc" => {
+                let text = cps(&case["text"]);
+                match load_doc(&text, &case["tree"]) {
+                    Ok(d) => {
+                        docs.insert(case["doc"].as_i64().unwrap_or(0), (d, case["tree"].clone()));
+                    }
+                    Err(e) => {
+                        bad_docs += 1;
+                        let ev = json!({"k": "doc", "doc": case["doc"], "text": case["text"], "error": e});
+                        writeln!(w, "{}", ev).unwrap();
+                        traced += 1;
+                    }
+                }
+            }
+            "xp" => {
+                cases += 1;
+                let d = case["doc"].as_i64().unwrap_or(0);
+                let (doc, tree) = match docs.get(&d) {
+                    Some(x) => x,
+                    None => return,
+                };
+                let binds = case.get("binds").cloned().unwrap_or(json!([]));
+                let exp = &case["exp"];
+                let mut obs = vec![];
+                let mut all_ok = doc.mismatch.is_none();
+                for sp in case["sp"].as_array().unwrap_or(&vec![]) {
+                    let o = eval_fresh(doc, &cps(sp), &binds);
+                    evals += 1;
+                    if !same_value(&o, exp) {
+                        all_ok = false;
+                    }
+                    obs.push(o);
+                }
+                *fams.entry(case["fam"].as_str().unwrap_or("").to_string()).or_insert(0) += 1;
+                let nt = match exp["t"].as_str() {
+                    Some("nodes") => exp["v"].as_array().map(|a| !a.is_empty()).unwrap_or(false),
+                    _ => true,
+                };
+                if nt {
+                    nontrivial += 1;
+                }
+                if samples.len() < 5 && nt && cases % 997 == 1 {
+                    samples.push(json!({"doc": doc.text, "expr": cps(&case["sp"][1]), "expected": exp, "observed": obs[1]}));
+                }
+                if all_ok {
+                    fast_ok += 1;
+                }
+                if !all_ok || (sample > 0 && cases % sample == 0) {
+                    let mut ev = json!({"k": "xp", "fam": case["fam"], "tree": tree, "text": string_to_cps(&doc.text),
+                                        "binds": binds, "ast": case["ast"], "sp": case["sp"], "obs": obs,
+                                        "mismatch": doc.mismatch.clone().unwrap_or_default()});
+                    if !all_ok {
+                        ev["fast"] = json!(false);
+                    }
+                    writeln!(w, "{}", ev).unwrap();
+                    traced += 1;
+                }
+            }
+            _ => {}
+        }
+    });
+    w.flush().unwrap();
+    let stats = json!({"cases": cases, "evaluations": evals, "fast_ok": fast_ok, "traced": traced,
+                       "nontrivial": nontrivial, "samples": samples, "families": fams, "bad_docs": bad_docs});
+    if let Some(p) = stats_path {
+        let mut f = open_out(p);
+        writeln!(f, "{}", stats).unwrap();
+    } else {
+        eprintln!("{}", stats);
+    }
+    0
+}
+
+// ------------------------------------------------------------------------------------------------
+// xp-eval: debugging aid  (xp-eval '<doc>' 'expr')
+
+fn eval_cli(args: &[String]) -> i32 {
+    if args.len() < 2 {
+        eprintln!("usage: xp-eval <xml> <expr>");
+        return 2;
+    }
+    match parse_merged(&args[0]) {
+        Ok(dom) => {
+            let r = guarded(|| {
+                let mut ctx = Context::default();
+                match xml_xpath::query(dom.clone(), &args[1], &mut ctx) {
+                    Ok(Value::Node(ns)) => format!(
+                        "nodes[{}]: {}",
+                        ns.len(),
+                        ns.iter().map(|n| format!("<{}|{}>", n.order(), n)).collect::<Vec<_>>().join(" ")
+                    ),
+                    Ok(v) => format!("{:?}", v),
+                    Err(e) => format!("error: {}", e),
+                }
+            });
+            println!("{}", r.unwrap_or_else(|p| format!("panic: {}", p)));
+            0
+        }
+        Err(e) => {
+            println!("document error: {}", e);
+            1
+        }
+    }
 }
